@@ -8,6 +8,7 @@ package lsputil
 // that the values are not all constant-folded.
 
 import (
+	"reflect"
 	"sort"
 	"strconv"
 	"strings"
@@ -276,6 +277,13 @@ outer:
 	qq.a = k
 	obs("ptr.alias", pp.a)
 	obs("ptr.eq", pp == qq && pp != &esPair{1, 2})
+
+	// --- reflect.DeepEqual
+	de := func(a, b any) string { return strconv.FormatBool(reflect.DeepEqual(a, b)) }
+	obs("deepequal", de([]esPair{{1, k}}, []esPair{{1, k}})+de([]esPair{{1, k}}, []esPair{{1, 4}})+
+		de(map[string][]int{"a": {1, k}}, map[string][]int{"a": {1, k}})+de(map[string][]int{"a": {1}}, map[string][]int{"a": {2}})+
+		de(&esPair{1, 2}, &esPair{1, 2})+de([]int(nil), []int{})+de(esBox{n: k, tags: []string{"x"}}, esBox{n: k, tags: []string{"x"}})+
+		de(esBox{n: k, m: map[string]int{"q": 1}}, esBox{n: k, m: map[string]int{"q": 2}})+de(1, int64(1))+de(nil, nil))
 
 	// --- sorting and strconv
 	srt := []esPair{{3, 0}, {1, 1}, {2, 2}, {1, 3}}
